@@ -134,8 +134,9 @@ def g_tbl(r, maxdim=6):
 
 @O.op("c14.add_table", "c14", weight=1.0)
 @O.gen(lambda r: dict(O.g_sl(r), rows=r.randint(1, 6), cols=r.randint(1, 6),
-                      w=r.choice([1, 7, 100, 914400, 3000001, r.randint(1, 9000000)]),
-                      h=r.choice([1, 5, 99, 914400, 2000003, r.randint(1, 5000000)]),
+                      # a few bases plus a small offset: tables of one run (and of one process) share per-cell quotients and differ in remainders
+                      w=r.choice([1, 7, 100, 914400 + r.randint(0, 6), 3000000 + r.randint(0, 6), r.randint(1, 9000000)]),
+                      h=r.choice([1, 5, 99, 914400 + r.randint(0, 6), 2000000 + r.randint(0, 6), r.randint(1, 5000000)]),
                       x=O.emu(r), y=O.emu(r)))
 def _c14_add(w, deck, a):
     sl = O.nav_slide(w, deck, a)
@@ -456,4 +457,12 @@ def pinned_traces(tier):
            {"op": "c14.frame_geom", "table": 0, "what": "width", "v": 1}, {"op": "reopen", "sink": "seekable", "form": "stream"},
            {"op": "c14.resize", "table": 0, "what": "col", "r": 0, "c": 0, "v": 7}, {"op": "checkpoint", "sink": "seekable"}, {"op": "restart"}]
     out.append({"property": ID, "seed": "frame-resized-then-column-changed", "tier": "pinned", "config": {"pinned": True}, "start": [{"deck": "default"}], "events": evs})
+    # tables of the same shape whose sizes differ only in the division remainder, on one slide, on two slides, before and after a restart
+    evs = [{"op": "add_slide", "layout": 6}, {"op": "add_slide", "layout": 6}]
+    for k, (R_, C_, W_, H_) in enumerate(((2, 3, 4000000, 1000000), (2, 3, 4000001, 1000001), (2, 3, 4000002, 1000000), (3, 2, 1000001, 4000000), (3, 2, 1000000, 4000001))):
+        evs.append({"op": "c14.add_table", "slide": k % 2, "rows": R_, "cols": C_, "w": W_, "h": H_, "x": 0, "y": 0})
+        if k == 2:
+            evs += [{"op": "checkpoint", "sink": "seekable"}, {"op": "restart"}]
+    evs += [{"op": "checkpoint", "sink": "seekable"}, {"op": "restart"}]
+    out.append({"property": ID, "seed": "same-shape-sizes-differing-in-remainder", "tier": "pinned", "config": {"pinned": True, "max_slides": 4}, "start": [{"deck": "default"}], "events": evs})
     return out
